@@ -108,7 +108,7 @@ def matrix_case(runner, r, oc, nconf, big=False, support_copy=False):
                     for f_ in fs:
                         os.utime(os.path.join(root, f_), (stamp, stamp))
                 oc.stat("conf_tree_mtime_" + age)
-            cfg = dict(model=dict(model2, copy_other=copy_other), outdir=outdir, cwd=cwd, faketime=r.choice([None, 0, 86400 * 365.25 * 30 + 7, 2 ** 31 - 5]),
+            cfg = dict(model=dict(model2, copy_other=copy_other), outdir=outdir, cwd=cwd, warmup=(i % 4 == 3), faketime=r.choice([None, 0, 86400 * 365.25 * 30 + 7, 2 ** 31 - 5]),
                        walkseed=r.choice([None, 1, 2, 3]))
             hs = r.choice([0, 1, 2, 3, 4242, 31337])
             tz = r.choice(["UTC", "Asia/Tokyo", "America/New_York"])
@@ -179,7 +179,7 @@ def run(tier):
     proof = proof_status(PROP, thorough)
     oc = Outcome(PROP)
     oc.rule = ("matrix: a directory with user code is regenerated (60% with a mutated model, so LostCode occurs) in fresh interpreters under "
-               "PYTHONHASHSEED in {0,1,2,3,4242,31337} x TZ x fake clock x shuffled os.walk listings x 6 spellings of the output directory/cwd x age of the pre-existing tree (2001 / as copied / one hour ahead) x its end-of-line convention (LF / CRLF); "
+               "PYTHONHASHSEED in {0,1,2,3,4242,31337} x TZ x fake clock x shuffled os.walk listings x 6 spellings of the output directory/cwd x age of the pre-existing tree (2001 / as copied / one hour ahead) x its end-of-line convention (LF / CRLF) x history of the process (fresh / the same generation already ran once); "
                "C++ and protocol cases mostly with kojen's default copy of the support sources on, stale support files of an earlier release planted in the pre-existing tree; "
                "oracle: all trees byte-identical, same set of reported files, nothing outside the output directory; "
                "path: Basic/Path functions vs os.path on generated paths; non-trivial = every matrix case (>= 4 configurations compared)")
